@@ -115,7 +115,8 @@ def parse_gbs(gbs_basis_file):
     for atom, shells in zip(atoms, basis):
         output.setdefault(atom, [])
 
-        shells = re.split(r"\n?\s*(\w+)\s+\w+\s+\w+\.\w+\s*\n", shells)
+        # NOTE: the angular momentum symbols are letters; a number row such as "0.0163  0  1.138" is not a shell header
+        shells = re.split(r"\n?\s*([A-Za-z]+)\s+\w+\s+\w+\.\w+\s*\n", shells)
         # remove the ends
         atom_basis = shells[1:]
         # get angular momentums
